@@ -1,4 +1,5 @@
 import MpVerif.C15.Lemmas
+import MpVerif.C15.LemmasReentrant
 import MpVerif.Gen.Signal
 /-!
 # C15 — an interrupt is never lost and never delivered with inconsistent state
@@ -40,7 +41,7 @@ theorem C15_gen_ctor : Src.collect Src.ctorMicro Signal.ctor = some (ctorSteps L
 
 open MpVerif.Gen in
 /-- destructor: the stores of the body in source order, followed by the destruction of the members -/
-theorem C15_gen_dtor : (Src.collect Src.dtorMicro Signal.dtor).map (· ++ [Micro.dFree]) = some dtorSteps := by decide
+theorem C15_gen_dtor : (Src.collect Src.dtorMicro Signal.dtor).map (· ++ [Micro.dFree]) = some (dtorSteps Layout.current) := by decide
 
 open MpVerif.Gen in
 /-- `SetHandler(h, d)`: the three stores in source order, for every callback and data -/
@@ -375,6 +376,76 @@ example :
     (run ⟨.bsd, false⟩ init evs).2 =
       [.brkFail, .cb 1 1, .rearm .int, .query true, .brkFail, .cb 1 1, .rearm .term, .brkFail, .exit1] := by decide
 
+/-! ## re-entrance: a second signal while `HandleSigInt` runs (`Reentrant.lean`)
+
+Outside the property's quantifier (which places signals relative to the *program's* steps), and until round 5 an
+assumption.  Now modelled for ONE nested delivery: the outer handler is split into its steps (`++stop_` = load + store),
+the nested signal `g'` arrives after `k` of them (`bsd`: only `g' ≠ g` nests, `g' = g` is held back; `sysv`: anything
+nests and `g` meets the default action).  Local theorems (any state with both handlers installed and `stop_ ≤ 2`,
+which by `Inv`/`C15_stop_bounded` is every state of a well-formed history between installation and teardown):
+what survives re-entrance — the interrupt is recorded, callbacks get the registered data, nothing else changes — and
+what does not: the *count*.  The whole-history theorems above stay without re-entrance (their invariant uses
+`stop_ ≤ 2`, which a nested delivery can exceed by one). -/
+
+/-- the step-wise handler without a nested signal is the atomic `deliver` (so, by `C15_gen_handleSigInt`, the source) -/
+theorem C15_reentrant_steps_are_deliver (md : Mode) (s : St) (g : Sig) (hd : s.disp g = true) (hh : s.halted = none) :
+    (hRun md g handlerSteps ⟨entryState md s g, 0, []⟩).s = (deliver md s g).1 ∧
+    (hRun md g handlerSteps ⟨entryState md s g, 0, []⟩).obs = (deliver md s g).2 :=
+  reentrant_steps_are_deliver md s g hd hh
+
+/-- **What survives a nested signal, at every gap `k` of the outer handler, both semantics, any pair of signals**:
+    if the process still runs afterwards the interrupt is recorded (`stop_ ≥ 1`), `stop_ ≤ 3`, the interrupter and
+    the registration are untouched, and every callback invoked (by the outer or the nested handler) got the
+    registered data. -/
+theorem C15_reentrant_safe (md : Mode) (s : St) (g g' : Sig) (k : Nat)
+    (hI : s.dispInt = true) (hT : s.dispTerm = true) (hh : s.halted = none) (h2 : s.stop ≤ 2)
+    (hr : (deliverNested md s g g' k).1.halted = none) :
+    1 ≤ (deliverNested md s g g' k).1.stop ∧ (deliverNested md s g g' k).1.stop ≤ 3 ∧
+    (deliverNested md s g g' k).1.intr = s.intr ∧ (deliverNested md s g g' k).1.handler = s.handler ∧
+    (deliverNested md s g g' k).1.data = s.data ∧
+    (∀ h d, Obs.cb h d ∈ (deliverNested md s g g' k).2 → h = s.handler ∧ d = s.data) :=
+  reentrant_safe md s g g' k hI hT hh h2 hr
+
+/-- **Outside the two count windows a nested signal is a sequential pair**: arriving before the outer exit test
+    (`k ≤ 1`) it behaves like `g'` then `g`; arriving after the outer `++stop_` has stored (`k ≥ 4`) like `g` then `g'`
+    (same termination, and the same state if the process still runs).  So all whole-history theorems cover these
+    nestings. -/
+theorem C15_reentrant_sequential_outside_window (md : Mode) (s : St) (g g' : Sig) (k : Nat) (hne : g' ≠ g)
+    (hI : s.dispInt = true) (hT : s.dispTerm = true) (hh : s.halted = none) (h2 : s.stop ≤ 2)
+    (hk : k ≤ 1 ∨ 4 ≤ k) :
+    let seq := if k ≤ 1 then run md s [.sig g', .sig g] else run md s [.sig g, .sig g']
+    (deliverNested md s g g' k).1.halted = seq.1.halted ∧
+    ((deliverNested md s g g' k).1.halted = none → (deliverNested md s g g' k).1 = seq.1) :=
+  reentrant_sequential_outside_window md s g g' k hne hI hT hh h2 hk
+
+/-
+Full-strength third-interrupt clause under re-entrance (FALSE, see the two counterexamples): three signals, one of
+them nested at any gap of another one's handler, terminate the process.
+-/
+
+/-- count window 1 (`k = 3`, between the load and the store of `++stop_`): the nested handler's increment is
+    overwritten.  After the constructor: SIGINT with SIGTERM nested there, then SIGINT: three interrupts, `stop_ = 2`,
+    the process runs. -/
+theorem C15_reentrant_counterexample_undercount :
+    let s0 := (run .bsd init ((ctorSteps Layout.current).map Ev.step)).1
+    let r := deliverNested .bsd s0 .int .term 3
+    r.1.halted = none ∧ r.1.stop = 1 ∧ (deliver .bsd r.1 .int).1.halted = none ∧ (deliver .bsd r.1 .int).1.stop = 2 := by
+  decide
+
+/-- count window 2 (`k = 2`, between `if (stop_ > 1) _exit(1);` and `++stop_`): with one interrupt already recorded,
+    SIGINT passes the exit test, the nested SIGTERM makes `stop_` 2, the outer handler makes it 3: three interrupts, no
+    exit (and `stop_` exceeds 2). -/
+theorem C15_reentrant_counterexample_overcount :
+    let s0 := (run .bsd init ((ctorSteps Layout.current).map Ev.step ++ [.sig .int])).1
+    let r := deliverNested .bsd s0 .int .term 2
+    s0.stop = 1 ∧ r.1.halted = none ∧ r.1.stop = 3 := by
+  decide
+
+/-- under SysV semantics the same signal arriving inside its own handler meets the default action -/
+example :
+    let s0 := (run .sysv init ((ctorSteps Layout.current).map Ev.step)).1
+    (deliverNested .sysv s0 .int .int 1).1.halted = some (.killed .int) := by decide
+
 /-! ## the handler stays installed -/
 
 /-- **Re-arm** (full strength, both `signal` semantics, all event sequences): once both dispositions are set,
@@ -479,6 +550,37 @@ theorem C15_order_third_exits (L : Layout) (hL : L.ctorStopFirst = true) (md : M
   have := stop_le_two md post (run md init pre).1 (stop_le_two md pre init (by decide))
   omega
 
+/-- **Third interrupt terminates, FULL strength, for a destructor that does not reset the count**
+    (`Layout.dtorKeepsStop`, repo_patches/C15-fix-dtor-keep-count.diff).  After any well-formed history, three signals
+    delivered anywhere in any well-formed continuation — registrations, solving, reporting, *teardown and after it* —
+    terminate the process, as long as no new handler object's constructor resets the count in between
+    (`stop_ = 0` is the only remaining store that lowers it).  Signals that find no handler installed terminate the
+    process by the default action, so no installation hypothesis is needed. -/
+theorem C15_order_third_exits_full (L : Layout) (hD : L.dtorKeepsStop = true) (md : Mode) (pre post : List Ev) (pc pc' : PC)
+    (_hpc : pcRun L .idle pre = some pc) (hpost : pcRun L pc post = some pc')
+    (hno : ∀ e ∈ post, e ≠ .step .cStop0) (h3 : 3 ≤ sigCount post) :
+    (run md init (pre ++ post)).1.halted ≠ none := by
+  intro hn
+  have hk := keeps_no_dStop1 L hD post pc pc' hpost
+  have hneu : ∀ e ∈ post, StopNeutral e = true := by
+    intro e he
+    have a := hno e he
+    have b := hk e he
+    cases e with
+    | sig g => rfl
+    | step m => cases m <;> simp_all [StopNeutral]
+  rw [run_append] at hn
+  have e1 := stop_run md post _ hneu hn
+  have := stop_le_two md post (run md init pre).1 (stop_le_two md pre init (by decide))
+  omega
+
+/-- the failing history of the open finding, on the layout with the destructor repair: two SIGINTs during solving,
+    one after the destructor — the third now terminates the process -/
+example :
+    let evs := schedule (expandProg Layout.repaired [.ctor, .work, .dtor, .work]) 0 [(8, .int), (8, .int), (12, .int)]
+    wfProg Layout.repaired [.ctor, .work, .dtor, .work] = true ∧ sigCount evs = 3 ∧
+    (run .bsd init evs).1.halted = some .exit1 := by decide
+
 /-- **The first two interrupts never `_exit`, repaired constructor**: counted from the constructor's `stop_ = 0`,
     which now precedes the `signal()` calls. -/
 theorem C15_order_no_early_exit (L : Layout) (hL : L.ctorStopFirst = true) (md : Mode) (pre post : List Ev) (pc' : PC)
@@ -540,6 +642,31 @@ theorem C15_no_early_exit (md : Mode) (pre post : List Ev) (pc' : PC)
     (hrun : (run md init pre).1.halted = none) :
     (run md init (pre ++ .step .cStop0 :: post)).1.halted ≠ some .exit1 :=
   C15_order_no_early_exit Layout.current rfl md pre post pc' hpc hpost hnd h2 hrun
+
+/-! ## what the line driver prints is what the theorems speak about
+
+The driver (`Driver.lean`) prints, for the event list `schedule …`, the entries of `trace`: (event, observations of that
+event, state after it).  The theorems are about `run`, `exec` and `deliver`. -/
+
+/-- **Linking lemma.**  For every split `evs = pre ++ e :: post` the entry the driver prints at that position is the
+    event `e` with the observations and the state of `exec` applied to the state `run` reaches after `pre`
+    (for a signal in a running process: of `deliver`); the concatenated observations are `run`'s; the trace has one
+    entry per event. -/
+theorem C15_trace_is_run (md : Mode) (s : St) (pre : List Ev) (e : Ev) (post : List Ev) :
+    (trace md s (pre ++ e :: post))[pre.length]? =
+        some (e, (exec md (run md s pre).1 e).2, (exec md (run md s pre).1 e).1) ∧
+    ((trace md s (pre ++ e :: post)).map (fun t => t.2.1)).flatten = (run md s (pre ++ e :: post)).2 ∧
+    (trace md s (pre ++ e :: post)).length = (pre ++ e :: post).length ∧
+    (∀ g, e = .sig g → (run md s pre).1.halted = none →
+        exec md (run md s pre).1 e = deliver md (run md s pre).1 g) := by
+  refine ⟨?_, trace_obs md s _, trace_length md s _, ?_⟩
+  · rw [trace_append]
+    have hl : (trace md s pre).length = pre.length := trace_length md s pre
+    rw [List.getElem?_append_right (by omega)]
+    simp [hl, trace]
+  · intro g he hh
+    subst he
+    exact exec_sig md _ g hh
 
 /-! ## the correspondence inputs are instances of the theorems -/
 
@@ -614,11 +741,11 @@ example :
 /-- `C15_after_teardown` / `C15_break_text_safe` after a history with a registration and interrupts: nothing is
     called, nothing is written -/
 example :
-    let pre := exPre ++ exPost ++ (dtorSteps.map Ev.step)
+    let pre := exPre ++ exPost ++ ((dtorSteps Layout.current).map Ev.step)
     pcRun Layout.current .idle pre = some .idle ∧ (run .bsd init pre).1.halted = none ∧
     (deliver .bsd (run .bsd init pre).1 .int).2 = [.brk 0 true, .rearm .int] := by decide
 
-example : Obs.cb 1 2 ∉ (deliver .bsd (run .bsd init (exPre ++ exPost ++ (dtorSteps.take 3).map Ev.step)).1 .int).2 :=
+example : Obs.cb 1 2 ∉ (deliver .bsd (run .bsd init (exPre ++ exPost ++ ((dtorSteps Layout.current).take 3).map Ev.step)).1 .int).2 :=
   C15_after_teardown Layout.current .bsd _ .int .dH (by decide) (by decide) (by decide) 1 2
 
 /-- `C15_gen_handleSigInt` in a state where everything happens: sysv semantics, failing stdout, a registered
